@@ -320,11 +320,12 @@ func (c *MultiConn) sendHeartbeat() {
 		return
 	}
 	sendStart := time.Now()
-	if ok := stream.queueSend(&Packet{
+	// queue under the stream lock so the 'closed' check and the channel send can't interleave with cleanup()
+	if ok := stream.queueSends([]*Packet{{
 		StreamId: heartbeatTopic,
 		Eof:      true,
 		Bytes:    []byte(heartbeatPing),
-	}, sendStart, c.p2p.metrics); ok {
+	}}, sendStart, c.p2p.metrics); ok {
 		c.lastPingSent.Store(sendStart.UnixNano())
 		if c.p2p.metrics != nil {
 			c.p2p.metrics.HeartbeatPingSent.Inc()
@@ -345,11 +346,12 @@ func (c *MultiConn) handleHeartbeatPacket(packet *Packet) {
 			return
 		}
 		sendStart := time.Now()
-		if ok := stream.queueSend(&Packet{
+		// queue under the stream lock so the 'closed' check and the channel send can't interleave with cleanup()
+		if ok := stream.queueSends([]*Packet{{
 			StreamId: heartbeatTopic,
 			Eof:      true,
 			Bytes:    []byte(heartbeatPong),
-		}, sendStart, c.p2p.metrics); ok {
+		}}, sendStart, c.p2p.metrics); ok {
 			c.lastPongSent.Store(sendStart.UnixNano())
 			if c.p2p.metrics != nil {
 				c.p2p.metrics.HeartbeatPongSent.Inc()
@@ -492,6 +494,7 @@ type Stream struct {
 	msgAssembler []byte                       // collects and adds incoming packets until the entire message is received (EOF signal)
 	inbox        chan *lib.MessageAndMetadata // the channel where fully received messages are held for other parts of the app to read
 	mu           sync.Mutex                   // mutex to prevent race conditions when sending packets (all packets of the same message should be one right after the other)
+	assemblerMu  sync.Mutex                   // mutex to protect msgAssembler between the receive service and cleanup (separate from mu so a blocked sender can't stall receiving)
 	closed       bool                         // flag to identify if stream is closed
 	logger       lib.LoggerI
 }
@@ -511,6 +514,7 @@ func (s *Stream) queueSends(packets []*Packet, sendStart time.Time, metrics *lib
 }
 
 // queueSend() schedules the packet to be sent
+// NOTE: callers must hold s.mu (use queueSends) so this can't race with cleanup()
 func (s *Stream) queueSend(p *Packet, sendStart time.Time, metrics *lib.Metrics) bool {
 	if s.closed {
 		return false
@@ -536,6 +540,13 @@ func (s *Stream) queueSend(p *Packet, sendStart time.Time, metrics *lib.Metrics)
 // handlePacket() merge the new packet with the previously received ones until the entire message is complete (EOF signal)
 func (s *Stream) handlePacket(peerInfo *lib.PeerInfo, packet *Packet, metrics *lib.Metrics) (int32, lib.ErrorI) {
 	assemblyStart := time.Now()
+	// hold the assembler lock for the whole packet so cleanup() can't release the buffer half way through
+	s.assemblerMu.Lock()
+	defer s.assemblerMu.Unlock()
+	// if the stream was cleaned up, what was assembled so far is gone: ignore the rest instead of delivering a partial message
+	if s.msgAssembler == nil {
+		return 0, nil
+	}
 	msgAssemblerLen, packetLen := len(s.msgAssembler), len(packet.Bytes)
 	//s.logger.Debugf("Received Packet from %s (ID:%s, L:%d, E:%t), hash: %s",
 	//	lib.BytesToTruncatedString(peerInfo.Address.PublicKey),
